@@ -161,6 +161,26 @@ def load_linter_config(
         return result_fallback  # type: ignore[return-value]
 
 
+def require_number(name: str, value: Any, integer: bool = False) -> None:
+    """Reject a threshold that is not a number as a configuration error.
+
+    A string, list or null where a number belongs would otherwise fail inside every rule
+    invocation (TypeError on the first comparison) and silently drop the whole analysis.
+
+    Args:
+        name: Setting name for the error message
+        value: Configured value
+        integer: Whether only whole numbers are usable
+
+    Raises:
+        ValueError: If the value is not a number (or not an integer when required)
+    """
+    accepted: tuple[type, ...] = (int,) if integer else (int, float)
+    if isinstance(value, bool) or not isinstance(value, accepted):
+        kind = "an integer" if integer else "a number"
+        raise ValueError(f"{name} must be {kind}, got {value!r}")
+
+
 def has_file_content(context: BaseLintContext) -> bool:
     """Check if context has file content available.
 
